@@ -1072,6 +1072,26 @@ class Interp:
     def ex_GeneratorExp(self, e, f):
         return self.ex_ListComp(e, f)
 
+    def ex_DictComp(self, e, f):
+        if len(e.generators) != 1 or e.generators[0].is_async:
+            raise Unsupported("comprehension with several generators")
+        g = e.generators[0]
+        out = {}
+        sub = Frame(f.func, dict(f.locals))
+        sub.module = f.module
+        for v in self.iterate(self.eval(g.iter, f)):
+            self.assign(g.target, v, sub)
+            if all(self.truth(self.eval(c, sub)) for c in g.ifs):
+                k = self.eval(e.key, sub)
+                out[self.dict_key(k)] = self.eval(e.value, sub)
+        return out
+
+    def ex_SetComp(self, e, f):
+        s = SetVal()
+        for v in self.ex_ListComp(ast.ListComp(elt=e.elt, generators=e.generators), f):
+            s.add(self, v)
+        return s
+
     def ex_Starred(self, e, f):
         raise Unsupported("starred expression")
 
